@@ -37,11 +37,18 @@ DECOY_FORMS = [
 
 def gen_plan(rng, idx, fault_population=False):
     nfiles = rng.choice([1, 2, 2, 3, 3, 4, 4, 5, 6])
-    style = rng.choice(['f', 'f', 'named', 'subdir'])
+    style = rng.choice(['f', 'f', 'named', 'subdir', 'dotted'])
     pool_named = ['main', 'intro', 'config', 'fig', 'figure', 'chap', 'app',
                   'fig2', 'prefig']
     if style == 'named':
         stems = rng.sample(pool_named, nfiles)
+    elif style == 'dotted':
+        # dots inside the name: 'sec2.1' must become 'sec2.1.tex'
+        pre = rng.choice(['sec', 'part.', 'v1.', 'ch'])
+        stems = [pre + '%d.%s' % (i // 2 + 1, 'ab'[i % 2]) if rng.random() < 0.5
+                 else pre + '2.%d' % i for i in range(nfiles)]
+        if len(set(stems)) < nfiles:
+            stems = [pre + '2.%d' % i for i in range(nfiles)]
     elif style == 'subdir':
         stems = [('sub/' if rng.random() < 0.5 else '') + 'f%d' % i
                  for i in range(nfiles)]
